@@ -1,7 +1,8 @@
 import GoflowModel.Driver.C12
+import GoflowModel.Driver.CQL
 open GoflowModel
 
-def handlers : List (List String → Option String) := [Driver.C12.handle]
+def handlers : List (List String → Option String) := [Driver.C12.handle, Driver.CQL.handle]
 
 def step (line : String) : String :=
   let toks := (line.trimAscii.toString.splitOn " ").filter (· ≠ "")
